@@ -101,7 +101,16 @@ def run(ctx) -> None:
                 coord_axis[nm] = "1"
         total = Poly()
         for c in exps:
-            total = total + _phase_terms(c.args[0])
+            # a factor in the denominator of a quotient (or conjugated) contributes minus its phase
+            sgn = 1
+            for st_ in arm:
+                for q in ast.walk(st_):
+                    if isinstance(q, ast.BinOp) and isinstance(q.op, ast.Div) and any(x is c for x in ast.walk(q.right)):
+                        sgn = -sgn
+                    if isinstance(q, ast.Call) and isinstance(q.func, ast.Attribute) and q.func.attr in ("conj", "conjugate") \
+                            and any(x is c for x in ast.walk(q)) and q is not c:
+                        sgn = -sgn
+            total = total + (_phase_terms(c.args[0]) if sgn == 1 else -_phase_terms(c.args[0]))
         monos = total.terms
         ok = len(monos) == 2
         axes_seen = set()
@@ -281,3 +290,1034 @@ def run(ctx) -> None:
     ok = md is not None and norm_text(md).replace(" ", "") in ("[(-1,),(-1,)]", "((-1,),(-1,))")
     ctx.check(ok, "R-CONTRACT", f"{br.qualname}:match-dims", br.loc(ex[0]), "plane-wave axes (-1) matched",
               f"coefficients are broadcast with match_dims={norm_text(md) if md is not None else None}", key_detail="dims")
+
+
+# =====================================================================================================================
+# ---- added after the mutation sweep
+from fractions import Fraction  # noqa: E402
+
+from ..cfg import DataFlow  # noqa: E402
+from ..model import bind_args, kw, last_attr  # noqa: E402
+from ..terms import FlowNormalizer  # noqa: E402
+
+PU = "abtem.prism.utils"
+
+
+def _node_at(df: DataFlow, f, target: ast.AST) -> int:
+    for n in df.cfg.nodes:
+        if n.kind == "stmt" and n.ast is not None and any(x is target for x in ast.walk(n.ast)) and not isinstance(
+                n.ast, (ast.If, ast.For, ast.While, ast.With, ast.Try)):
+            return n.idx
+    for n in df.cfg.nodes:
+        if n.ast is not None and any(x is target for x in ast.walk(n.ast)):
+            return n.idx
+    raise AnalysisError(f"{f.qualname}: no CFG node for `{norm_text(target)[:40]}`")
+
+
+# ---------------------------------------------------------------------------------------------- R-UNITNORM
+def _modsq_of(e: ast.expr):
+    """X when e is |X|^2: abs2(X), abs(X)**2, X*conj(X) (optionally .real)."""
+    if isinstance(e, ast.Attribute) and e.attr == "real":
+        return _modsq_of(e.value)
+    if isinstance(e, ast.Call) and last_attr(e) == "abs2" and len(e.args) == 1:
+        return e.args[0]
+    if isinstance(e, ast.BinOp) and isinstance(e.op, ast.Pow) and isinstance(e.right, ast.Constant) and e.right.value == 2 \
+            and isinstance(e.left, ast.Call) and last_attr(e.left) in ("abs", "absolute") and len(e.left.args) == 1:
+        return e.left.args[0]
+    if isinstance(e, ast.BinOp) and isinstance(e.op, ast.Mult):
+        for a, b in ((e.left, e.right), (e.right, e.left)):
+            if isinstance(b, ast.Call) and last_attr(b) in ("conj", "conjugate"):
+                inner = b.args[0] if b.args else (b.func.value if isinstance(b.func, ast.Attribute) else None)
+                if inner is not None and norm_text(inner) == norm_text(a):
+                    return a
+    return None
+
+
+def _unitnorm(ctx) -> None:
+    repo = ctx.repo
+    cc = repo.method(SM, "SMatrixArray", "_calculate_ctf_coefficients")
+    df = DataFlow(cc.node)
+    rets = [r for r in walk_no_nested(cc.node) if isinstance(r, ast.Return) and r.value is not None]
+    ctx.require(len(rets) == 1, f"{cc.qualname}: expected one return")
+    sums: dict[str, tuple] = {}
+
+    def hook(nz, c):
+        s = last_attr(c)
+        if s == "_evaluate_from_angular_grid":
+            return Poly.atom("KERNEL")
+        if s == "sum":
+            recv = c.func.value if isinstance(c.func, ast.Attribute) and not (
+                isinstance(c.func.value, ast.Name) and c.args and _modsq_of(c.args[0]) is not None) else (
+                c.args[0] if c.args else None)
+            x = _modsq_of(recv) if recv is not None else None
+            if x is not None:
+                inner = nz.norm(x)
+                name = f"SUMSQ{len(sums)}"
+                axis = kw(c, "axis")
+                keep = kw(c, "keepdims")
+                pos = [a for a in c.args if a is not recv]
+                if axis is None and pos:
+                    axis = pos[0]
+                sums[name] = (inner, axis, keep, c)
+                return Poly.atom(name)
+        if s == "norm" and c.args:  # linalg.norm(X, axis=..., keepdims=...) = sqrt(sum |X|^2)
+            inner = nz.norm(c.args[0])
+            name = f"SUMSQ{len(sums)}"
+            sums[name] = (inner, kw(c, "axis"), kw(c, "keepdims"), c)
+            return Poly.atom(name).power(Fraction(1, 2))
+        return None
+
+    nz = FlowNormalizer(df, df.cfg.node_of(rets[0]).idx, call_hook=hook)
+    p = nz.norm(rets[0].value)
+    cons = f"{cc.qualname}:unit norm over the plane waves"
+    ctx.require("KERNEL" in p.atoms(), f"{cc.qualname}: the returned coefficients are not derived from the CTF kernel")
+    ctx.require(len(sums) >= 1, f"{cc.qualname}: no sum of squared moduli found in `{p.key()[:80]}`: normalisation not recognised")
+    ok = len(sums) == 1
+    why = f"{len(sums)} different sums"
+    if ok:
+        (name, (inner, axis, keep, call)), = sums.items()
+        want = Poly.atom("KERNEL") * Poly.atom(name).power(Fraction(-1, 2))
+        if inner != Poly.atom("KERNEL"):
+            ok, why = False, f"the sum is taken of `{inner.key()}`, not of the coefficients themselves"
+        elif p != want:
+            ok, why = False, (f"the coefficients are `{p.key().replace(name, 'sum|c|^2')}` instead of "
+                              "c / sqrt(sum |c|^2)")
+        else:
+            ax = None
+            if axis is not None:
+                try:
+                    from ..model import fold_constant
+
+                    ax = fold_constant(axis)
+                except Exception:
+                    raise AnalysisError(f"{cc.qualname}: axis `{norm_text(axis)}` of the normalising sum is not a literal")
+            kd = isinstance(keep, ast.Constant) and keep.value is True
+            if ax not in (-1, (-1,)):
+                ok, why = False, (f"the sum runs over axis {ax!r}, not over the plane-wave axis -1: with a CTF ensemble "
+                                  "(several defocus values ...) the members are mixed and no member has unit norm")
+            elif not kd:
+                ok, why = False, ("the sum drops the plane-wave axis (keepdims is not True): with a CTF ensemble the "
+                                  "division broadcasts the norms along the wrong axis (or fails)")
+    ctx.check(ok, "R-UNITNORM", cons, cc.loc(rets[0]), "c / sqrt(sum_k |c_k|^2) over axis -1, keepdims",
+              f"{why} — the probe built from the S-matrix does not carry unit intensity like the real-space Probe, so "
+              "exit waves and measurements differ by a factor that depends on the aberrations", key_detail="unitnorm")
+
+
+# ---------------------------------------------------------------------------------------------- R-PHASEPRODUCT
+def _phase_of(df, at, e: ast.expr, depth: int = 0) -> Poly:
+    """total phase of an expression built from complex_exponential factors by * and / (and conj)."""
+    if depth > 8:
+        raise AnalysisError("phase expression too deep")
+    if isinstance(e, ast.Call) and call_name(e) == "complex_exponential" and len(e.args) == 1:
+        return _phase_terms(e.args[0])
+    if isinstance(e, ast.Call) and last_attr(e) in ("conj", "conjugate"):
+        inner = e.args[0] if e.args else e.func.value
+        return -_phase_of(df, at, inner, depth + 1)
+    if isinstance(e, ast.Call) and last_attr(e) in ("asarray", "array", "astype", "copy") :
+        inner = e.args[0] if (e.args and last_attr(e) in ("asarray", "array")) else e.func.value
+        return _phase_of(df, at, inner, depth + 1)
+    if isinstance(e, ast.BinOp) and isinstance(e.op, ast.Mult):
+        return _phase_of(df, at, e.left, depth + 1) + _phase_of(df, at, e.right, depth + 1)
+    if isinstance(e, ast.BinOp) and isinstance(e.op, ast.Div):
+        return _phase_of(df, at, e.left, depth + 1) - _phase_of(df, at, e.right, depth + 1)
+    if isinstance(e, ast.Name):
+        defs = df.reaching(at, e.id)
+        if len(defs) == 1 and defs[0].kind == "assign" and defs[0].value is not None:
+            return _phase_of(df, defs[0].node, defs[0].value, depth + 1)
+        if len(defs) == 2 and {d.kind for d in defs} == {"assign", "aug"}:
+            a = next(d for d in defs if d.kind == "assign")
+            g = next(d for d in defs if d.kind == "aug")
+            st = df.cfg.nodes[g.node].ast
+            if isinstance(st, ast.AugAssign) and isinstance(st.op, (ast.Mult, ast.Div)):
+                sign = 1 if isinstance(st.op, ast.Mult) else -1
+                rhs = _phase_of(df, g.node, st.value, depth + 1)
+                return _phase_of(df, a.node, a.value, depth + 1) + (rhs if sign == 1 else -rhs)
+    raise AnalysisError(f"cannot read the phase of `{norm_text(e)[:60]}`")
+
+
+def _phase_product(ctx) -> None:
+    repo = ctx.repo
+    pc = repo.method(SM, "SMatrixArray", "_calculate_positions_coefficients")
+    df = DataFlow(pc.node)
+    rets = [r for r in walk_no_nested(pc.node) if isinstance(r, ast.Return) and r.value is not None]
+    ctx.require(len(rets) == 1 and isinstance(rets[0].value, ast.Name), f"{pc.qualname}: expected `return <coefficients>`")
+    rname = rets[0].value.id
+    at = df.cfg.node_of(rets[0]).idx
+    coord_axis = {}
+    for st in walk_no_nested(pc.node):
+        if isinstance(st, ast.Assign) and isinstance(st.targets[0], ast.Name):
+            t = {last_attr(c) for c in ast.walk(st.value) if isinstance(c, ast.Call)}
+            if "_x_coordinates" in t:
+                coord_axis[st.targets[0].id] = "0"
+            elif "_y_coordinates" in t:
+                coord_axis[st.targets[0].id] = "1"
+    defs = [d for d in df.reaching(at, rname) if d.kind in ("assign", "aug")]
+    ctx.require(len(defs) >= 2, f"{pc.qualname}: expected one definition of the coefficients per scan type")
+
+    def phase_of_def(d, depth=0):
+        stn = df.cfg.nodes[d.node].ast
+        if d.kind == "assign" and d.value is not None:
+            return _phase_of(df, d.node, d.value)
+        if d.kind == "aug" and isinstance(stn, ast.AugAssign) and isinstance(stn.op, (ast.Mult, ast.Div)) and depth < 6:
+            before = [x for x in df.reaching(d.node, rname) if x.kind in ("assign", "aug")]
+            if len(before) == 1:
+                rhs = _phase_of(df, d.node, stn.value)
+                return phase_of_def(before[0], depth + 1) + (rhs if isinstance(stn.op, ast.Mult) else -rhs)
+        raise AnalysisError(f"{pc.qualname}: cannot read the phase defined by `{norm_text(stn)[:60]}`")
+
+    consumed = {x.node for g in defs if g.kind == "aug" for x in df.reaching(g.node, rname) if x.node != g.node}
+    for d in defs:
+        if d.node in consumed:
+            continue  # updated in place afterwards: judged through the augmented assignment
+        st = df.cfg.nodes[d.node].ast
+        total = phase_of_def(d)
+        good = len(total.terms) == 2
+        axes_seen = set()
+        for m, coeff in total.terms.items():
+            atoms = dict(m)
+            comps = [a for a in atoms if a != PI]
+            okm = coeff == -2 and atoms.get(PI) == 1 and len(comps) == 2 and all(atoms[a] == 1 for a in comps)
+            if okm:
+                kc = [a for a in comps if a.startswith("wave_vectors__")]
+                pcs = [a for a in comps if not a.startswith("wave_vectors__")]
+                okm = len(kc) == 1 and len(pcs) == 1
+                if okm:
+                    kax = kc[0].rsplit("__", 1)[1]
+                    pax = pcs[0].rsplit("__", 1)[1] if "__" in pcs[0] else coord_axis.get(pcs[0])
+                    okm = pax == kax
+                    axes_seen.add(kax)
+            good = good and okm
+        good = good and axes_seen == {"0", "1"}
+        arm = "GridScan" if any(a in coord_axis for a in total.atoms()) else "generic"
+        ctx.check(good, "R-PHASEPRODUCT", f"{pc.qualname}:{arm} total phase", pc.loc(st),
+                  f"phase of the product of the exponential factors = {total.key()}",
+                  f"the exponential factors combine (products add, quotients subtract their phases) to the phase "
+                  f"`{total.key()}`, not to -2*pi*(x*k_x + y*k_y): the probe is shifted to a mirrored position",
+                  key_detail=f"total-{arm}")
+
+
+# ---------------------------------------------------------------------------------------------- R-REDUCE
+def _reduce_rules(ctx) -> None:
+    repo = ctx.repo
+    rw = repo.method(SM, "SMatrixArray", "_reduce_to_waves")
+    br = repo.method(SM, "SMatrixArray", "_batch_reduce_to_measurements")
+    df = DataFlow(rw.node)
+    cparam = rw.positional_params[3]
+    # (a) the coefficients stay complex
+    for st in walk_no_nested(rw.node):
+        if not (isinstance(st, ast.Assign) and isinstance(st.value, ast.Call)):
+            continue
+        c = st.value
+        dt = kw(c, "dtype")
+        if dt is None and last_attr(c) == "astype" and c.args:
+            dt = c.args[0]
+        src = c.args[0] if c.args and last_attr(c) != "astype" else (c.func.value if isinstance(c.func, ast.Attribute) else None)
+        if dt is None or src is None or not (isinstance(src, ast.Name) and src.id == cparam):
+            continue
+        is_complex = None
+        if isinstance(dt, ast.Call) and last_attr(dt) == "get_dtype":
+            cv = kw(dt, "complex")
+            if cv is None and dt.args:
+                cv = dt.args[0]
+            if isinstance(cv, ast.Constant) and isinstance(cv.value, bool):
+                is_complex = cv.value
+            elif cv is None:
+                is_complex = False
+        elif "complex" in norm_text(dt):
+            is_complex = True
+        elif "float" in norm_text(dt):
+            is_complex = False
+        if is_complex is None:
+            raise AnalysisError(f"{rw.qualname}: cannot read the dtype `{norm_text(dt)}` the coefficients are cast to")
+        ctx.check(is_complex, "R-REDUCE", f"{rw.qualname}:coefficients stay complex", rw.loc(st),
+                  f"`{norm_text(dt)}` is a complex type",
+                  f"the expansion coefficients exp(-2 pi i k.r) * CTF(k) are cast to the real type `{norm_text(dt)}`: "
+                  "their imaginary part (the whole position and aberration phase) is discarded", key_detail="complex")
+    # (b) the cropped arm is the one taken when the window differs from the grid
+    ifs = [i for i in walk_no_nested(rw.node) if isinstance(i, ast.If) and i.orelse and
+           any(isinstance(c, ast.Call) and last_attr(c) in ("minimum_crop", "wrapped_crop_2d", "batch_crop_2d")
+               for s in i.body + i.orelse for c in ast.walk(s))]
+    ctx.require(len(ifs) == 1, f"{rw.qualname}: the window / full-grid switch was not found")
+    sw = ifs[0]
+    test, neg = sw.test, False
+    while isinstance(test, ast.UnaryOp) and isinstance(test.op, ast.Not):
+        test, neg = test.operand, not neg
+    ctx.require(isinstance(test, ast.Compare) and len(test.ops) == 1 and isinstance(test.ops[0], (ast.Eq, ast.NotEq)),
+                f"{rw.qualname}: switch `{norm_text(sw.test)}` is not an (in)equality")
+    sides = {dotted(test.left), dotted(test.comparators[0])}
+    ctx.require(sides == {"self.window_gpts", "self.gpts"}, f"{rw.qualname}: switch compares {sorted(map(str, sides))}")
+    body_when_differs = isinstance(test.ops[0], ast.NotEq) != neg
+    crop_in_body = any(isinstance(c, ast.Call) and last_attr(c) in ("minimum_crop", "wrapped_crop_2d", "batch_crop_2d")
+                       for s in sw.body for c in ast.walk(s))
+    crop_in_else = any(isinstance(c, ast.Call) and last_attr(c) in ("minimum_crop", "wrapped_crop_2d", "batch_crop_2d")
+                       for s in sw.orelse for c in ast.walk(s))
+    ctx.check(crop_in_body != crop_in_else and crop_in_body == body_when_differs, "R-REDUCE",
+              f"{rw.qualname}:window crop iff the window differs from the grid", rw.loc(sw),
+              "cropping arm taken when window_gpts != gpts, plain contraction otherwise",
+              f"with `{norm_text(sw.test)}` the cropping arm runs when the window equals the grid and the plain "
+              "contraction when it does not: without interpolation the probes come back re-centred in a wrapped window, "
+              "with interpolation they are not cropped to the window at all", key_detail="croparm")
+    # (c) ensemble axis moved to the front exactly when the S-matrix has more than (plane wave, y, x) axes
+    n_guard = 0
+    for i in walk_no_nested(rw.node):
+        if not (isinstance(i, ast.If) and any(isinstance(c, ast.Call) and last_attr(c) == "moveaxis" for s in i.body
+                                              if not isinstance(s, (ast.If, ast.For, ast.While)) for c in ast.walk(s))):
+            continue
+        from ..model import NotConstant, fold_constant
+
+        class _Len(ast.NodeTransformer):
+            def visit_Call(self, node):
+                if call_name(node) == "len" and len(node.args) == 1 and (dotted(node.args[0]) or "").endswith(".shape"):
+                    return ast.Name(id="__ndim", ctx=ast.Load())
+                return self.generic_visit(node)
+
+            def visit_Attribute(self, node):
+                if node.attr == "ndim":
+                    return ast.Name(id="__ndim", ctx=ast.Load())
+                return self.generic_visit(node)
+
+        t2 = ast.fix_missing_locations(_Len().visit(copy.deepcopy(i.test)))
+        try:
+            truth = {n: bool(_fold_cmp(t2, {"__ndim": n})) for n in (3, 4, 5)}
+        except NotConstant:
+            raise AnalysisError(f"{rw.qualname}: cannot evaluate `{norm_text(i.test)}` for a given number of axes")
+        n_guard += 1
+        ctx.check(truth == {3: False, 4: True, 5: True}, "R-REDUCE", f"{rw.qualname}:ensemble axis to the front {n_guard}",
+                  rw.loc(i), "moveaxis(-3, 0) exactly when the S-matrix has an ensemble axis (more than 3 axes)",
+                  f"`{norm_text(i.test)}` is {truth} for 3/4/5 array axes: with exactly (plane waves, y, x) there is no "
+                  "ensemble axis to move and moveaxis(-3, 0) permutes the scan axes of a 2D scan; with an ensemble axis it "
+                  "must be moved in front of the scan axes", key_detail=f"ensemble{n_guard}")
+    ctx.require(n_guard == 2, f"{rw.qualname}: expected the ensemble-axis move in both arms, found {n_guard}")
+    # (d) window pixel positions = positions / sampling - window offset
+    pos_param = rw.positional_params[2]
+    mc = [c for c in walk_no_nested(rw.node) if isinstance(c, ast.Call) and last_attr(c) == "minimum_crop"]
+    ctx.require(len(mc) == 1 and mc[0].args, f"{rw.qualname}: minimum_crop call not found")
+    mcf = repo.function(PU, "minimum_crop")
+    b = bind_args(mc[0], mcf)
+    p0, p1 = mcf.positional_params[:2]
+    ctx.require(p0 in b and p1 in b, f"{rw.qualname}: minimum_crop arguments not bound")
+    at = _node_at(df, rw, mc[0])
+    pp = FlowNormalizer(df, at).norm(b[p0])
+    want = Poly.atom(pos_param) * Poly.atom("self.waves.sampling").inverse() - Poly.atom("self.window_offset")
+    ctx.check(pp == want and dotted(b[p1]) == "self.window_gpts", "R-REDUCE", f"{rw.qualname}:window pixel positions", rw.loc(mc[0]),
+              f"minimum_crop({pp.key()}, {norm_text(b[p1])})",
+              f"the windows are placed at `{pp.key()}` with shape `{norm_text(b[p1])}`; the probe position in pixels of "
+              f"this S-matrix block is {pos_param} / sampling - window_offset and the window shape is window_gpts: the "
+              "windows are cut around other places than the probes", key_detail="pixelpos")
+
+
+def _fold_cmp(e: ast.expr, env: dict):
+    from ..model import NotConstant, fold_constant
+
+    if isinstance(e, ast.Compare) and len(e.ops) == 1:
+        a, b = fold_constant(e.left, env), fold_constant(e.comparators[0], env)
+        op = e.ops[0]
+        table = {ast.Lt: a < b, ast.LtE: a <= b, ast.Gt: a > b, ast.GtE: a >= b, ast.Eq: a == b, ast.NotEq: a != b}
+        for k_, v_ in table.items():
+            if isinstance(op, k_):
+                return v_
+        raise NotConstant("compare")
+    if isinstance(e, ast.UnaryOp) and isinstance(e.op, ast.Not):
+        return not _fold_cmp(e.operand, env)
+    if isinstance(e, ast.BoolOp):
+        vals = [_fold_cmp(v, env) for v in e.values]
+        return all(vals) if isinstance(e.op, ast.And) else any(vals)
+    return fold_constant(e, env)
+
+
+_inner_run_c06_a = run
+
+
+def run(ctx) -> None:  # noqa: F811
+    ctx.rule("R-UNITNORM", "the CTF coefficients returned by _calculate_ctf_coefficients are c / sqrt(sum_k |c_k|^2) with "
+             "the sum over the plane-wave axis (-1, kept): term normal form of the returned value with the kernel "
+             "evaluation as the atom c.  The real-space Probe is normalised to unit intensity, so the PRISM probe must be")
+    ctx.rule("R-PHASEPRODUCT", "the position coefficients are a product/quotient of complex exponentials whose phases "
+             "(products add, quotients and conjugates subtract) total -2 pi (x k_x + y k_y) in every scan-type arm")
+    ctx.rule("R-REDUCE", "_reduce_to_waves: the coefficients are cast to a complex type; the window-crop arm is taken "
+             "exactly when window_gpts != gpts; the ensemble axis is moved to the front exactly when the S-matrix array "
+             "has more than three axes; the windows are placed at positions / sampling - window_offset with shape "
+             "window_gpts")
+    pending = None
+    for part in (_unitnorm, _phase_product, _reduce_rules):
+        try:
+            part(ctx)
+        except AnalysisError as e:
+            pending = pending or e
+    _inner_run_c06_a(ctx)
+    if pending is not None:
+        raise pending
+
+
+# ---------------------------------------------------------------------------------------------- R-WAVEVECTOR
+import re as _re  # noqa: E402
+
+
+class _GridNorm(FlowNormalizer):
+    """FlowNormalizer that (a) turns names unpacked from a pair (`w, h = self.extent`) into the subscripted pair and
+    (b) turns fftfreq(N, d=D)[index] into the atom FREQ[axis of N|axis of index] when N*D == 1 (integer orders)."""
+
+    def _name(self, name: str) -> Poly:
+        d = self.df.single_def(self._at[-1], name)
+        if d is not None and d.kind == "assign" and d.value is not None:
+            st = self.df.cfg.nodes[d.node].ast
+            if isinstance(st, ast.Assign) and isinstance(st.targets[0], (ast.Tuple, ast.List)) and not isinstance(
+                    st.value, (ast.Tuple, ast.List)):
+                pos = [i for i, t in enumerate(st.targets[0].elts) if isinstance(t, ast.Name) and t.id == name]
+                if len(pos) == 1 and dotted(st.value) is not None:
+                    return Poly.atom(f"1*{dotted(st.value)}[{pos[0]}]")
+        return super()._name(name)
+
+    @staticmethod
+    def _axis(p: Poly):
+        if len(p.terms) == 1:
+            (mono, c), = p.terms.items()
+            if c == 1 and len(mono) == 1 and mono[0][1] == 1:
+                m = _re.search(r"\[(?:1\*)?(-?\d)\]$", mono[0][0])
+                if m:
+                    return int(m.group(1))
+        return None
+
+    def norm(self, n):
+        if isinstance(n, ast.Subscript) and isinstance(n.value, ast.Call) and last_attr(n.value) == "fftfreq":
+            c = n.value
+            N = c.args[0] if c.args else kw(c, "n")
+            D = kw(c, "d") or (c.args[1] if len(c.args) > 1 else None)
+            if N is not None:
+                pn = self.norm(N)
+                pd = self.norm(D) if D is not None else Poly.const(1)
+                ax_n, ax_i = self._axis(pn), self._axis(self.norm(n.slice))
+                if (pn * pd) == Poly.const(1):
+                    return Poly.atom(f"FREQ[{ax_n}|{ax_i}]")
+                return Poly.atom(f"FREQ[{ax_n}|{ax_i}]") * pn * pd
+        return super().norm(n)
+
+
+def _wave_vectors(ctx) -> None:
+    repo = ctx.repo
+    f = repo.method(SM, "SMatrix", "wave_vectors")
+    df = DataFlow(f.node)
+    rets = [r for r in walk_no_nested(f.node) if isinstance(r, ast.Return) and r.value is not None]
+    ctx.require(len(rets) == 1, f"{f.qualname}: expected one return")
+    v = rets[0].value
+    at = df.cfg.node_of(rets[0]).idx
+    transposed = False
+    for _ in range(4):
+        if isinstance(v, ast.Attribute) and v.attr == "T":
+            v, transposed = v.value, not transposed
+        elif isinstance(v, ast.Call) and last_attr(v) in ("asarray", "array", "ascontiguousarray") and v.args:
+            v = v.args[0]
+        elif isinstance(v, ast.Call) and last_attr(v) in ("stack", "column_stack") and v.args:
+            ax = kw(v, "axis")
+            transposed = last_attr(v) == "column_stack" or (ax is not None and norm_text(ax) in ("-1", "1"))
+            v = v.args[0]
+        elif isinstance(v, ast.Name):
+            d = df.single_def(at, v.id)
+            if d is None or d.value is None:
+                break
+            v, at = d.value, d.node
+        else:
+            break
+    ctx.require(isinstance(v, (ast.List, ast.Tuple)) and len(v.elts) == 2 and transposed,
+                f"{f.qualname}: the returned array is not [k_x, k_y] transposed to (n, 2)")
+    for comp, e in enumerate(v.elts):
+        p = _GridNorm(df, at).norm(e)
+        want = Poly.atom(f"FREQ[{comp}|{comp}]") * Poly.atom(f"1*self.interpolation[{comp}]") * \
+            Poly.atom(f"1*self.extent[{comp}]").inverse()
+        ctx.check(p == want, "R-WAVEVECTOR", f"{f.qualname}:component {comp}", f.loc(rets[0]),
+                  f"k[{comp}] = (integer order along axis {comp} at the aperture pixels) * interpolation[{comp}] / extent[{comp}]",
+                  f"component {comp} of the wave vectors is `{p.key()}`; the plane waves that make up a probe of the "
+                  f"interpolated cell are k[{comp}] = FREQ[{comp}|{comp}] * interpolation[{comp}] / extent[{comp}], where "
+                  f"FREQ[a|b] is the integer Fourier order of an axis with shape[a] points taken at the aperture's pixel "
+                  f"indices along axis b: the S-matrix is expanded in plane waves that are not the probe's Fourier "
+                  "components", key_detail=f"k{comp}")
+
+
+# ---------------------------------------------------------------------------------------------- R-PWNORM
+def _pw_norm(ctx) -> None:
+    repo = ctx.repo
+    f = repo.method(SM, "SMatrix", "_build_s_matrix")
+    df = DataFlow(f.node)
+    pws = [st for st in walk_no_nested(f.node) if isinstance(st, ast.Assign) and isinstance(st.value, ast.Call)
+           and last_attr(st.value) == "plane_waves" and isinstance(st.targets[0], ast.Name)]
+    ctx.require(len(pws) == 1, f"{f.qualname}: plane_waves(...) assignment not found")
+    arr = pws[0].targets[0].id
+    wcalls = [c for c in walk_no_nested(f.node) if isinstance(c, ast.Call) and call_name(c) == "Waves" and c.args
+              and isinstance(c.args[0], ast.Name) and c.args[0].id == arr]
+    ctx.require(len(wcalls) == 1, f"{f.qualname}: Waves({arr}, ...) not found")
+    at = _node_at(df, f, wcalls[0])
+    spar = f.positional_params[0]
+
+    def hook(nz, c):
+        if last_attr(c) == "prod" and len(c.args) == 1:
+            a = c.args[0]
+            if isinstance(a, ast.Subscript) and isinstance(a.slice, ast.Slice) and isinstance(a.value, ast.Attribute) \
+                    and a.value.attr == "shape" and isinstance(a.value.value, ast.Name) and a.value.value.id == arr \
+                    and a.slice.lower is not None and norm_text(a.slice.lower) == "-2" and a.slice.upper is None:
+                return Poly.atom("G0") * Poly.atom("G1")
+            d = dotted(a)
+            if d == f"{spar}.interpolation":
+                return Poly.atom("I0") * Poly.atom("I1")
+            if d == f"{spar}.gpts":
+                return Poly.atom("G0") * Poly.atom("G1")
+        return None
+
+    ren = {f"1*{spar}.interpolation[0]": "I0", f"1*{spar}.interpolation[1]": "I1", f"1*{spar}.gpts[0]": "G0",
+           f"1*{spar}.gpts[1]": "G1", f"1*{arr}.shape[-2]": "G0", f"1*{arr}.shape[-1]": "G1"}
+    scale = Poly.const(1)
+    seen_plane = False
+    for d in sorted(df.reaching(at, arr), key=lambda d_: d_.node):
+        st = df.cfg.nodes[d.node].ast
+        if d.kind == "assign" and st is pws[0]:
+            seen_plane = True
+            continue
+        if d.kind == "aug" and isinstance(st, ast.AugAssign) and isinstance(st.op, (ast.Mult, ast.Div)):
+            p = FlowNormalizer(df, d.node, call_hook=hook).norm(st.value)
+            p = p.subst({a: Poly.atom(ren[a]) for a in p.atoms() if a in ren})
+            scale = scale * (p if isinstance(st.op, ast.Mult) else p.inverse())
+            continue
+        if d.kind == "assign" and isinstance(st, ast.Assign) and isinstance(st.value, ast.BinOp) and \
+                isinstance(st.value.op, (ast.Mult, ast.Div)) and isinstance(st.value.left, ast.Name) and st.value.left.id == arr:
+            p = FlowNormalizer(df, d.node, call_hook=hook).norm(st.value.right)
+            p = p.subst({a: Poly.atom(ren[a]) for a in p.atoms() if a in ren})
+            scale = scale * (p if isinstance(st.value.op, ast.Mult) else p.inverse())
+            continue
+        raise AnalysisError(f"{f.qualname}: cannot follow the definition `{norm_text(st)[:50]}` of the plane-wave array")
+    ctx.require(seen_plane, f"{f.qualname}: the plane-wave array does not reach Waves(...)")
+    if not (scale.atoms() <= {"I0", "I1", "G0", "G1"}):
+        raise AnalysisError(f"{f.qualname}: plane-wave amplitude `{scale.key()}` is not expressed in interpolation and gpts")
+    want = Poly.atom("I0") * Poly.atom("I1") * (Poly.atom("G0") * Poly.atom("G1")).inverse()
+    ctx.check(scale == want, "R-PWNORM", f"{f.qualname}:plane-wave amplitude", f.loc(wcalls[0]),
+              "unit-modulus plane waves scaled by prod(interpolation) / prod(gpts)",
+              f"the unit-modulus plane waves enter the S-matrix scaled by `{scale.key()}` (I = interpolation, G = gpts) "
+              "instead of I0*I1/(G0*G1): with unit-norm coefficients (R-UNITNORM) the reduced probe then carries "
+              "another total intensity than the real-space Probe (normalised to unit intensity in the package's "
+              "unnormalised-FFT convention), all exit waves and measurements are off by a constant factor",
+              key_detail="amplitude")
+
+
+_inner_run_c06_b = run
+
+
+def run(ctx) -> None:  # noqa: F811
+    ctx.rule("R-WAVEVECTOR", "SMatrix.wave_vectors returns (k_x, k_y) with k[a] = n_a * interpolation[a] / extent[a], n_a "
+             "the integer Fourier order fftfreq(shape[a], d=1/shape[a]) of the aperture grid along axis a taken at the "
+             "aperture's non-zero pixels along the same axis a (term normal form per component; the three subscripts "
+             "and the order must all name axis a)")
+    ctx.rule("R-PWNORM", "_build_s_matrix hands plane waves of amplitude prod(interpolation) / prod(gpts) to the "
+             "multislice (product of every in-place scale applied between plane_waves(...) and Waves(...))")
+    ctx.assume("the real-space Probe is normalised to unit total intensity in reciprocal space with unnormalised FFTs "
+               "(Waves.normalize), which fixes the plane-wave amplitude checked by R-PWNORM")
+    pending = None
+    for part in (_wave_vectors, _pw_norm):
+        try:
+            part(ctx)
+        except AnalysisError as e:
+            pending = pending or e
+    _inner_run_c06_b(ctx)
+    if pending is not None:
+        raise pending
+
+
+# ---------------------------------------------------------------------------------------------- R-CROPHULL
+class _Vec:
+    """a pair of per-axis polynomials (component 0 = x / rows, component 1 = y / columns)."""
+
+    def __init__(self, c0: Poly, c1: Poly):
+        self.c = (c0, c1)
+
+
+class _PairEval:
+    """Evaluates straight-line code over scalars (Poly) and pairs (_Vec): tuples of two, asarray/astype/item casts,
+    + and - (pairs broadcast with scalars), // by a literal, rint, min/max over the positions (position-independent
+    summands are pulled out: min(a + c) = min(a) + c), constant subscripts.  Anything else raises AnalysisError."""
+
+    def __init__(self, where: str, env: dict, dependent: set[str]):
+        self.where = where
+        self.env = dict(env)
+        self.dep = set(dependent)
+
+    def _split(self, p: Poly):
+        dep = Poly({m: c for m, c in p.terms.items() if any(a in self.dep for a, _ in m)})
+        return dep, p - dep
+
+    def _fn(self, name: str, p: Poly) -> Poly:
+        if name in ("MIN", "MAX"):
+            dep, ind = self._split(p)
+            if dep.is_zero():
+                return ind
+            a = f"{name}({dep.key()})"
+            return Poly.atom(a) + ind
+        a = f"{name}({p.key()})"
+        if any(x in self.dep for x in p.atoms()):
+            self.dep.add(a)
+        return Poly.atom(a)
+
+    def lift(self, v, fn):
+        return _Vec(fn(v.c[0]), fn(v.c[1])) if isinstance(v, _Vec) else fn(v)
+
+    def binop(self, a, b, fn):
+        if isinstance(a, _Vec) or isinstance(b, _Vec):
+            a2 = a.c if isinstance(a, _Vec) else (a, a)
+            b2 = b.c if isinstance(b, _Vec) else (b, b)
+            return _Vec(fn(a2[0], b2[0]), fn(a2[1], b2[1]))
+        return fn(a, b)
+
+    def ev(self, e: ast.expr):
+        if isinstance(e, ast.Constant) and isinstance(e.value, (int, float)) and not isinstance(e.value, bool):
+            return Poly.const(Fraction(repr(e.value)) if isinstance(e.value, float) else e.value)
+        if isinstance(e, ast.Name):
+            if e.id in self.env:
+                return self.env[e.id]
+            raise AnalysisError(f"{self.where}: unknown name `{e.id}`")
+        if isinstance(e, (ast.Tuple, ast.List)) and len(e.elts) == 2:
+            a, b = self.ev(e.elts[0]), self.ev(e.elts[1])
+            if isinstance(a, Poly) and isinstance(b, Poly):
+                return _Vec(a, b)
+        if isinstance(e, ast.UnaryOp) and isinstance(e.op, ast.USub):
+            return self.lift(self.ev(e.operand), lambda p: -p)
+        if isinstance(e, ast.BinOp) and isinstance(e.op, (ast.Add, ast.Sub)):
+            sub = isinstance(e.op, ast.Sub)
+            return self.binop(self.ev(e.left), self.ev(e.right), (lambda x, y: x - y) if sub else (lambda x, y: x + y))
+        if isinstance(e, ast.BinOp) and isinstance(e.op, ast.FloorDiv) and isinstance(e.right, ast.Constant):
+            k = e.right.value
+            return self.lift(self.ev(e.left), lambda p: self._fn(f"FLOORDIV{k}", p))
+        if isinstance(e, ast.Subscript):
+            v = self.ev(e.value)
+            idx = e.slice.elts if isinstance(e.slice, ast.Tuple) else [e.slice]
+            comp = [i for i in idx if not (isinstance(i, ast.Constant) and i.value is Ellipsis) and not (
+                isinstance(i, ast.Slice) and i.lower is None and i.upper is None)]
+            if isinstance(v, _Vec) and len(comp) == 1 and isinstance(comp[0], ast.Constant) and comp[0].value in (0, 1):
+                return v.c[comp[0].value]
+        if isinstance(e, ast.Call):
+            s = last_attr(e)
+            if s in ("asarray", "array", "ascontiguousarray") and e.args:
+                return self.ev(e.args[0])
+            if s in ("astype", "item", "copy") and isinstance(e.func, ast.Attribute):
+                return self.ev(e.func.value)
+            if s == "int" and len(e.args) == 1:
+                return self.ev(e.args[0])
+            if s in ("rint", "round", "floor", "ceil") and len(e.args) == 1:
+                nm = {"rint": "RINT", "round": "RINT", "floor": "FLOOR", "ceil": "CEIL"}[s]
+                return self.lift(self.ev(e.args[0]), lambda p: self._fn(nm, p))
+            if s in ("min", "max", "amin", "amax") and len(e.args) == 1 and not e.keywords:
+                v = self.ev(e.args[0])
+                if isinstance(v, Poly):
+                    return self._fn("MIN" if "min" in s else "MAX", v)
+        raise AnalysisError(f"{self.where}: cannot evaluate `{norm_text(e)[:60]}`")
+
+    def run(self, body):
+        """-> evaluated return value (list of values)"""
+        for st in body:
+            if isinstance(st, ast.Assign) and len(st.targets) == 1 and isinstance(st.targets[0], ast.Name):
+                if isinstance(st.value, ast.Call) and last_attr(st.value) == "get_array_module":
+                    continue
+                self.env[st.targets[0].id] = self.ev(st.value)
+            elif isinstance(st, ast.AugAssign) and isinstance(st.target, ast.Name) and isinstance(st.op, (ast.Add, ast.Sub)):
+                sub = isinstance(st.op, ast.Sub)
+                self.env[st.target.id] = self.binop(self.ev(st.target), self.ev(st.value),
+                                                    (lambda x, y: x - y) if sub else (lambda x, y: x + y))
+            elif isinstance(st, ast.Return) and isinstance(st.value, ast.Tuple):
+                return [self.ev(x) for x in st.value.elts]
+            elif (isinstance(st, ast.Expr) and isinstance(st.value, ast.Constant)) or isinstance(st, ast.Pass):
+                continue
+            else:
+                raise AnalysisError(f"{self.where}: cannot evaluate statement `{norm_text(st)[:60]}`")
+        raise AnalysisError(f"{self.where}: no return reached")
+
+
+def _crop_hull(ctx) -> None:
+    repo = ctx.repo
+    f = repo.function(PU, "minimum_crop")
+    ctx.require(len(f.positional_params) >= 2, f"{f.qualname}: signature changed")
+    pp, sp = f.positional_params[:2]
+    P = [Poly.atom("P0"), Poly.atom("P1")]
+    S = [Poly.atom("S0"), Poly.atom("S1")]
+    evl = _PairEval(f.qualname, {pp: _Vec(*P), sp: _Vec(*S)}, {"P0", "P1"})
+    out = evl.run(f.body)
+    ctx.require(len(out) == 3 and all(isinstance(v, _Vec) for v in out), f"{f.qualname}: does not return three pairs")
+    corner, size, rel = out
+    for i, ax in enumerate("xy"):
+        R = Poly.atom(f"RINT({(P[i] - Poly.atom(f'FLOORDIV2({S[i].key()})')).key()})")
+        absolute = rel.c[i] + corner.c[i]
+        txt = lambda p: p.key().replace("P0", "pos_x").replace("P1", "pos_y").replace("S0", "shape_x").replace("S1", "shape_y")
+        ctx.check(absolute == R, "R-CROPHULL", f"{f.qualname}:window corner {ax}", f.where,
+                  f"crop corner + relative corner = rint(position - shape // 2) along {ax}",
+                  f"along {ax} the hull corner plus the returned relative corner is `{txt(absolute)}`; the window of shape "
+                  f"`shape` centred on the probe starts at rint(pos_{ax} - shape_{ax} // 2) = `{txt(R)}`: the windows "
+                  "are cut at other pixels than the probe positions", key_detail=f"corner-{ax}")
+        lo_ok = corner.c[i] == Poly.atom(f"MIN({R.key()})")
+        hi = corner.c[i] + size.c[i]
+        hi_ok = hi == Poly.atom(f"MAX({R.key()})") + S[i]
+        ctx.check(lo_ok and hi_ok, "R-CROPHULL", f"{f.qualname}:hull {ax}", f.where,
+                  f"hull along {ax} = [min corner, max corner + shape)",
+                  f"along {ax} the common crop is [`{txt(corner.c[i])}`, `{txt(hi)}`) but the windows span "
+                  f"[min(corner), max(corner) + shape_{ax}): windows stick out of the common crop (or the crop is "
+                  "misplaced), the batch crop reads other pixels", key_detail=f"hull-{ax}")
+
+
+# ---------------------------------------------------------------------------------------------- R-WRAPCROP
+def _emptiness(test: ast.expr):
+    """(name, is_empty) for tests `X.size == 0`, `X.size != 0`, `X.size > 0`, `X.size`, `not ...`."""
+    neg = False
+    while isinstance(test, ast.UnaryOp) and isinstance(test.op, ast.Not):
+        test, neg = test.operand, not neg
+    if isinstance(test, ast.Attribute) and test.attr == "size" and isinstance(test.value, ast.Name):
+        return test.value.id, neg
+    if isinstance(test, ast.Compare) and len(test.ops) == 1:
+        l, r, op = test.left, test.comparators[0], test.ops[0]
+        if isinstance(r, ast.Attribute) and isinstance(l, ast.Constant):
+            l, r = r, l
+            op = {ast.Lt: ast.Gt, ast.Gt: ast.Lt, ast.LtE: ast.GtE, ast.GtE: ast.LtE}.get(type(op), type(op))()
+        if isinstance(l, ast.Attribute) and l.attr == "size" and isinstance(l.value, ast.Name) and \
+                isinstance(r, ast.Constant) and r.value == 0:
+            if isinstance(op, (ast.Eq, ast.LtE)):
+                return l.value.id, not neg
+            if isinstance(op, (ast.NotEq, ast.Gt)):
+                return l.value.id, neg
+    return None
+
+
+def _wrap_crop(ctx) -> None:
+    repo = ctx.repo
+    f = repo.function(PU, "wrapped_crop_2d")
+    ctx.require(len(f.positional_params) >= 3, f"{f.qualname}: signature changed")
+    ap, cp_, zp = f.positional_params[:3]
+    C = [Poly.atom("C0"), Poly.atom("C1")]
+    Z = [Poly.atom("Z0"), Poly.atom("Z1")]
+    N = [Poly.atom("N0"), Poly.atom("N1")]
+    txt = lambda p: (p.key() if isinstance(p, Poly) else str(p)).replace("C0", "corner[0]").replace("C1", "corner[1]") \
+        .replace("Z0", "size[0]").replace("Z1", "size[1]").replace("N0", "rows").replace("N1", "columns")
+    par = {}
+    for n in ast.walk(f.node):
+        for ch in ast.iter_child_nodes(n):
+            par[ch] = n
+    env: dict = {cp_: _Vec(*C), zp: _Vec(*Z)}
+    pos_table: dict[str, Poly] = {}
+
+    class E(_PairEval):
+        def ev(self, e):
+            if isinstance(e, ast.Subscript) and isinstance(e.value, ast.Attribute) and e.value.attr == "shape" and \
+                    isinstance(e.value.value, ast.Name) and e.value.value.id == ap and isinstance(e.slice, ast.UnaryOp) \
+                    and isinstance(e.slice.op, ast.USub) and isinstance(e.slice.operand, ast.Constant) and \
+                    e.slice.operand.value in (1, 2):
+                return N[2 - e.slice.operand.value]
+            if isinstance(e, ast.Subscript) and isinstance(e.value, ast.Attribute) and e.value.attr == "shape" and \
+                    isinstance(e.value.value, ast.Name) and e.value.value.id == ap and isinstance(e.slice, ast.Slice) and \
+                    e.slice.lower is not None and norm_text(e.slice.lower) == "-2" and e.slice.upper is None:
+                return _Vec(*N)
+            if isinstance(e, ast.Call) and last_attr(e) == "abs" and len(e.args) == 1:
+                inner = e.args[0]
+                if isinstance(inner, ast.Call) and last_attr(inner) == "min" and len(inner.args) == 2:
+                    a, b = (self.ev(x) for x in inner.args)
+                    if isinstance(b, Poly) and b.is_zero() and isinstance(a, Poly):
+                        pos_table[f"POS({(-a).key()})"] = -a
+                        return Poly.atom(f"POS({(-a).key()})")  # |min(a, 0)| = max(-a, 0)
+            if isinstance(e, ast.Call) and last_attr(e) == "max" and len(e.args) == 2:
+                a, b = (self.ev(x) for x in e.args)
+                if isinstance(a, Poly) and isinstance(b, Poly) and (a.is_zero() or b.is_zero()):
+                    q = b if a.is_zero() else a
+                    pos_table[f"POS({q.key()})"] = q
+                    return Poly.atom(f"POS({q.key()})")
+            return super().ev(e)
+
+    body = f.body
+    tries = [st for st in body if isinstance(st, ast.Try)]
+    ctx.require(len(tries) <= 1, f"{f.qualname}: several try blocks")
+    # ---- straight-line prefix (the far corner)
+    evl = E(f.qualname, env, set())
+    segs: dict[str, tuple] = {}  # name -> (axis, 'first' | 'wrap')
+    ws = [st for st in ast.walk(f.node) if isinstance(st, ast.Assign) and isinstance(st.value, ast.Call)
+          and last_attr(st.value) == "wrapped_slices"]
+    ctx.require(len(ws) == 2, f"{f.qualname}: expected wrapped_slices for rows and columns")
+    for st in body:
+        if isinstance(st, ast.Try):
+            break
+        if isinstance(st, ast.Assign) and isinstance(st.targets[0], ast.Name) and not (
+                isinstance(st.value, ast.Call) and last_attr(st.value) == "get_array_module"):
+            evl.env[st.targets[0].id] = evl.ev(st.value)
+    for st in ws:
+        ctx.require(isinstance(st.targets[0], ast.Tuple) and len(st.targets[0].elts) == 2 and len(st.value.args) == 3,
+                    f"{f.qualname}: `{norm_text(st)[:50]}` is not first, wrap = wrapped_slices(start, stop, n)")
+        start, stop, n = (evl.ev(a) for a in st.value.args)
+        axes = [i for i in (0, 1) if n == N[i]]
+        ctx.require(len(axes) == 1, f"{f.qualname}: `{norm_text(st.value.args[2])}` is not the number of rows or columns")
+        i = axes[0]
+        good = start == C[i] and stop == C[i] + Z[i]
+        ctx.check(good, "R-WRAPCROP", f"{f.qualname}:periodic range along array axis {i - 2}", f.loc(st),
+                  f"[{txt(start)}, {txt(stop)}) wrapped into {txt(n)}",
+                  f"the range wrapped into the {txt(n)} of the array is [{txt(start)}, {txt(stop)}) instead of "
+                  f"[corner[{i}], corner[{i}] + size[{i}]): rows and columns of the crop are crossed or the crop has "
+                  "another extent", key_detail=f"range{i}")
+        for t, role in zip(st.targets[0].elts, ("first", "wrap")):
+            ctx.require(isinstance(t, ast.Name), f"{f.qualname}: wrapped_slices result not unpacked into names")
+            segs[t.id] = (i, role)
+    ctx.require(sorted(v[0] for v in segs.values()) == [0, 0, 1, 1], f"{f.qualname}: row/column segments not identified")
+    # ---- block assembly
+    blocks: dict[str, tuple] = {}  # name -> (rows tuple, cols tuple)
+    for st in walk_no_nested(f.node):
+        if isinstance(st, ast.Assign) and isinstance(st.targets[0], ast.Name) and isinstance(st.value, ast.Subscript) and \
+                isinstance(st.value.value, ast.Name) and st.value.value.id == ap and isinstance(st.value.slice, ast.Tuple):
+            idx = [x for x in st.value.slice.elts if not (isinstance(x, ast.Constant) and x.value is Ellipsis)]
+            if len(idx) == 2 and all(isinstance(x, ast.Name) and x.id in segs for x in idx):
+                r, c = segs[idx[0].id], segs[idx[1].id]
+                ctx.check(r[0] == 0 and c[0] == 1, "R-WRAPCROP",
+                          f"{f.qualname}:block ({'rows' if r[0] == 0 else 'columns'} {r[1]}, {'columns' if c[0] == 1 else 'rows'} {c[1]})", f.loc(st),
+                          f"`{norm_text(st.value)}` takes a row segment and a column segment",
+                          f"`{norm_text(st.value)}` indexes the rows with a segment of array axis {r[0] - 2} and the columns "
+                          f"with a segment of axis {c[0] - 2}", key_detail="block")
+                blocks[st.targets[0].id] = ((r[1],), (c[1],)) if (r[0], c[0]) == (0, 1) else None
+    ctx.require(len(blocks) == 4, f"{f.qualname}: expected four blocks, found {len(blocks)}")
+
+    def formula(t):
+        """test -> nested tuples over atoms ('empty', name)"""
+        if isinstance(t, ast.BoolOp):
+            return ("and" if isinstance(t.op, ast.And) else "or",) + tuple(formula(v) for v in t.values)
+        if isinstance(t, ast.UnaryOp) and isinstance(t.op, ast.Not):
+            return ("not", formula(t.operand))
+        em = _emptiness(t)
+        if em is None:
+            raise AnalysisError(f"{f.qualname}: cannot read `{norm_text(t)}` as a test on empty blocks")
+        return ("atom", em[0]) if em[1] else ("not", ("atom", em[0]))
+
+    def holds(fm, val):
+        if fm[0] == "atom":
+            return val[fm[1]]
+        if fm[0] == "not":
+            return not holds(fm[1], val)
+        if fm[0] == "and":
+            return all(holds(x, val) for x in fm[1:])
+        return any(holds(x, val) for x in fm[1:])
+
+    def atoms_of(fm, acc):
+        if fm[0] == "atom":
+            acc.add(fm[1])
+        else:
+            for x in fm[1:]:
+                atoms_of(x, acc)
+        return acc
+
+    class _Cond(list):
+        """path condition of a statement; `(name, True) in cond` asks whether it entails that `name` is empty."""
+
+        def __contains__(self, item):
+            name, want = item
+            names = set()
+            for fm in self:
+                atoms_of(fm, names)
+            names = sorted(names | {name})
+            import itertools
+
+            for bits in itertools.product((False, True), repeat=len(names)):
+                val = dict(zip(names, bits))
+                if all(holds(fm, val) for fm in self) and val[name] != want:
+                    return False
+            return True
+
+        def __str__(self):
+            return " and ".join(_fm_text(fm) for fm in self) or "none"
+
+    def conditions(st):
+        out = _Cond()
+        cur = st
+        while cur in par:
+            p_ = par[cur]
+            if isinstance(p_, ast.If):
+                fm = formula(p_.test)
+                out.append(fm if any(cur is s for s in p_.body) else ("not", fm))
+            cur = p_
+        return out
+
+    def concat_of(e):
+        if isinstance(e, ast.Call) and last_attr(e) in ("concatenate", "concat") and e.args and isinstance(
+                e.args[0], (ast.List, ast.Tuple)) and len(e.args[0].elts) == 2 and all(
+                isinstance(x, ast.Name) for x in e.args[0].elts):
+            ax = kw(e, "axis") or (e.args[1] if len(e.args) > 1 else None)
+            try:
+                from ..model import fold_constant
+
+                axv = fold_constant(ax) if ax is not None else 0
+            except Exception:
+                raise AnalysisError(f"{f.qualname}: concatenation axis `{norm_text(ax)}` is not a literal")
+            return [x.id for x in e.args[0].elts], axv
+        return None
+
+    def lab(name: str) -> str:
+        b_ = blocks.get(name)
+        return "block ?" if b_ is None else f"block rows {'+'.join(b_[0])} x columns {'+'.join(b_[1])}"
+
+    def combine(name_target: str, ops, axv, where):
+        a, b = (blocks.get(o) for o in ops)
+        if a is None or b is None:
+            raise AnalysisError(f"{f.qualname}: operands {ops} of the concatenation are not known blocks")
+        if axv == -2:
+            ok = a[1] == b[1]
+            res = (a[0] + b[0], a[1])
+        elif axv == -1:
+            ok = a[0] == b[0]
+            res = (a[0], a[1] + b[1])
+        else:
+            raise AnalysisError(f"{f.qualname}: concatenation along axis {axv}")
+        ctx.check(ok, "R-WRAPCROP", f"{f.qualname}:join of {lab(ops[0])} and {lab(ops[1])}", where,
+                  f"{ops[0]} (rows {a[0]}, columns {a[1]}) and {ops[1]} (rows {b[0]}, columns {b[1]}) joined along axis {axv}",
+                  f"{ops[0]} holds rows {a[0]} x columns {a[1]} and {ops[1]} rows {b[0]} x columns {b[1]}; joining them along "
+                  f"axis {axv} needs equal {'columns' if axv == -2 else 'rows'}: the wrapped parts are glued along the "
+                  "wrong axis (shape error, or a transposed mosaic when the sizes happen to fit)",
+                  key_detail="join")
+        return res if ok else None
+
+    # variables defined by a concatenation (with shortcuts for empty operands)
+    order = []
+    for st in walk_no_nested(f.node):
+        if isinstance(st, ast.Assign) and isinstance(st.targets[0], ast.Name) and concat_of(st.value) is not None:
+            order.append(st)
+    for st in order:
+        tgt = st.targets[0].id
+        ops, axv = concat_of(st.value)
+        blocks[tgt] = combine(tgt, ops, axv, f.loc(st))
+        for alt in walk_no_nested(f.node):
+            if isinstance(alt, ast.Assign) and alt is not st and isinstance(alt.targets[0], ast.Name) and \
+                    alt.targets[0].id == tgt:
+                ctx.require(isinstance(alt.value, ast.Name) and alt.value.id in ops,
+                            f"{f.qualname}: `{norm_text(alt)}` is not a shortcut of the concatenation")
+                dropped = [o for o in ops if o != alt.value.id][0]
+                ctx.check((dropped, True) in conditions(alt), "R-WRAPCROP", f"{f.qualname}:shortcut dropping {lab(dropped)}",
+                          f.loc(alt), f"`{norm_text(alt)}` only where {dropped} is empty",
+                          f"`{norm_text(alt)}` drops the block {dropped} on a path where {dropped} is not known to be empty "
+                          f"(conditions {conditions(alt)}): the wrapped part of the crop is lost", key_detail="shortcut")
+    rets = [r for r in walk_no_nested(f.node) if isinstance(r, ast.Return) and r.value is not None and not any(
+        isinstance(par.get(x), ast.ExceptHandler) or isinstance(x, ast.ExceptHandler) for x in _ancestors(par, r))]
+    finals = [r for r in rets if concat_of(r.value) is not None]
+    ctx.require(len(finals) == 1, f"{f.qualname}: final concatenation not found")
+    ops, axv = concat_of(finals[0].value)
+    res = combine("result", ops, axv, f.loc(finals[0]))
+    if res is not None:
+        ctx.check(res == (("first", "wrap"), ("first", "wrap")), "R-WRAPCROP", f"{f.qualname}:mosaic order", f.loc(finals[0]),
+                  "rows (first, wrapped) x columns (first, wrapped)",
+                  f"the crop is assembled as rows {res[0]} x columns {res[1]}; the periodic crop is the segment up to the "
+                  "array edge followed by the wrapped-around segment, along both axes", key_detail="mosaic")
+    for r in rets:
+        if r is finals[0]:
+            continue
+        ctx.require(isinstance(r.value, ast.Name) and r.value.id in ops, f"{f.qualname}: `{norm_text(r)}` is not a shortcut")
+        dropped = [o for o in ops if o != r.value.id][0]
+        ctx.check((dropped, True) in conditions(r), "R-WRAPCROP", f"{f.qualname}:result shortcut dropping {lab(dropped)}", f.loc(r),
+                  f"`{norm_text(r)}` only where {dropped} is empty",
+                  f"`{norm_text(r)}` drops {dropped} on a path where it is not known to be empty (conditions "
+                  f"{conditions(r)}): the wrapped part of the crop is lost", key_detail="shortcut")
+    # ---- the fall-back for windows that wrap on both sides: pad(mode="wrap") and slice
+    handlers = [h for t in tries for h in t.handlers]
+    if not handlers:
+        return
+    ctx.require(len(handlers) == 1, f"{f.qualname}: several exception handlers")
+    h = handlers[0]
+    gens = {}
+    for st in h.body:
+        if isinstance(st, ast.Assign) and isinstance(st.targets[0], ast.Name) and isinstance(st.value, ast.Call) and \
+                call_name(st.value) in ("tuple", "list") and st.value.args and isinstance(
+                st.value.args[0], (ast.GeneratorExp, ast.ListComp)) and st.targets[0].id not in gens:
+            gens[st.targets[0].id] = st.value.args[0]
+    pads = [c for st in h.body for c in ast.walk(st) if isinstance(c, ast.Call) and last_attr(c) == "pad"]
+    ctx.require(len(pads) == 1 and len(gens) == 2, f"{f.qualname}: fall-back pad / slice construction not recognised")
+    mode = kw(pads[0], "mode")
+    ctx.check(isinstance(mode, ast.Constant) and mode.value == "wrap", "R-WRAPCROP", f"{f.qualname}:fall-back pads periodically",
+              f.loc(pads[0]), "pad(..., mode='wrap')", f"`{norm_text(pads[0])[:60]}` does not extend the array periodically",
+              key_detail="padmode")
+
+    def per_axis(gen, extra_env):
+        ctx.require(len(gen.generators) == 1 and isinstance(gen.generators[0].iter, ast.Call) and
+                    call_name(gen.generators[0].iter) == "zip" and isinstance(gen.generators[0].target, ast.Tuple),
+                    f"{f.qualname}: `{norm_text(gen)[:50]}` is not a comprehension over zip(...)")
+        g = gen.generators[0]
+        out = []
+        for i in (0, 1):
+            e2 = E(f.qualname, dict(evl.env), set())
+            e2.env.update(extra_env[i])
+            for t, src in zip(g.target.elts, g.iter.args):
+                ctx.require(isinstance(t, ast.Name), f"{f.qualname}: comprehension target")
+                if isinstance(src, ast.Name) and src.id in extra_env["@seq"]:
+                    e2.env[t.id] = extra_env["@seq"][src.id][i]
+                else:
+                    v = e2.ev(src)
+                    ctx.require(isinstance(v, _Vec), f"{f.qualname}: `{norm_text(src)}` is not a per-axis pair")
+                    e2.env[t.id] = v.c[i]
+            out.append((e2, gen.elt))
+        return out
+
+    pad_name = next(n for n, g in gens.items() if isinstance(g.elt, (ast.Tuple, ast.List)))
+    sl_name = next(n for n in gens if n != pad_name)
+    pad_vals = []
+    for i, (e2, elt) in enumerate(per_axis(gens[pad_name], {0: {}, 1: {}, "@seq": {}})):
+        v = e2.ev(elt)
+        ctx.require(isinstance(v, _Vec), f"{f.qualname}: pad widths are not (before, after) pairs")
+        pad_vals.append(v)
+    seq = {pad_name: pad_vals}
+    for i, (e2, elt) in enumerate(per_axis(gens[sl_name], {0: {}, 1: {}, "@seq": seq})):
+        ctx.require(isinstance(elt, ast.Call) and call_name(elt) == "slice" and len(elt.args) == 2,
+                    f"{f.qualname}: slices are not slice(start, stop)")
+        start, stop = e2.ev(elt.args[0]), e2.ev(elt.args[1])
+        pb, pa = pad_vals[i].c
+        ctx.check(start == C[i] + pb and stop - start == Z[i], "R-WRAPCROP", f"{f.qualname}:fall-back slice axis {i - 2}",
+                  f.loc(h), f"[{txt(start)}, {txt(stop)}) = corner + pad before, length size",
+                  f"after padding {txt(pb)} samples in front, the crop along axis {i - 2} is [{txt(start)}, {txt(stop)}); it "
+                  f"must start at corner[{i}] + (pad before) and have length size[{i}]", key_detail=f"fbslice{i}")
+
+        def pos_arg(p):
+            if len(p.atoms()) == 1 and p == Poly.atom(next(iter(p.atoms()))):
+                return pos_table.get(next(iter(p.atoms())))
+            return None
+
+        qb, qa = pos_arg(pb), pos_arg(pa)
+        if qb is None or qa is None:
+            raise AnalysisError(f"{f.qualname}: pad widths `{txt(pb)}`, `{txt(pa)}` are not max(., 0) forms")
+        before_ok = qb == -C[i]
+        # behind: an over-estimate that only adds non-negative quantities (array / crop sizes) still covers the crop
+        extra = qa - (C[i] + Z[i] - N[i])
+        after_ok = all(coef >= 0 and (mono == () or (len(mono) == 1 and mono[0][1] == 1 and mono[0][0] in
+                                                    ("Z0", "Z1", "N0", "N1"))) for mono, coef in extra.terms.items())
+        ctx.check(before_ok and after_ok, "R-WRAPCROP", f"{f.qualname}:fall-back pad covers the crop axis {i - 2}", f.loc(h),
+                  f"pad ({txt(pb)}, {txt(pa)})",
+                  f"along axis {i - 2} the array is padded by ({txt(pb)}, {txt(pa)}); the crop [corner, corner + size) needs "
+                  f"max(-corner[{i}], 0) in front and at least max(corner[{i}] + size[{i}] - n, 0) behind: the slice "
+                  "runs out of the padded array or starts at the wrong pixel", key_detail=f"fbpad{i}")
+
+
+def _fm_text(fm) -> str:
+    if fm[0] == "atom":
+        return f"{fm[1]} empty"
+    if fm[0] == "not":
+        return f"not ({_fm_text(fm[1])})"
+    return "(" + f" {fm[0]} ".join(_fm_text(x) for x in fm[1:]) + ")"
+
+
+def _ancestors(par, n):
+    out = []
+    while n in par:
+        n = par[n]
+        out.append(n)
+    return out
+
+
+_inner_run_c06_c = run
+
+
+def run(ctx) -> None:  # noqa: F811
+    ctx.rule("R-CROPHULL", "minimum_crop, evaluated symbolically per axis (pairs of polynomials; rint, min and max over "
+             "the positions as function atoms, min(a + c) = min(a) + c): hull corner + returned relative corner = "
+             "rint(position - shape // 2), and the hull is [min corner, max corner + shape) along each axis with the "
+             "shape component of the same axis")
+    ctx.rule("R-WRAPCROP", "wrapped_crop_2d: the ranges handed to wrapped_slices are [corner[a], corner[a] + size[a]) "
+             "wrapped into the array length of the same axis; the four blocks take (row segment, column segment); "
+             "blocks are joined along -2 only with equal columns and along -1 only with equal rows, giving rows "
+             "(first, wrapped) x columns (first, wrapped); a shortcut that drops a block is taken only where that "
+             "block is tested empty; the pad fall-back extends periodically by at least (max(-corner, 0), "
+             "max(corner + size - n, 0)) and slices [corner + pad before, + size)")
+    pending = None
+    for part in (_crop_hull, _wrap_crop):
+        try:
+            part(ctx)
+        except AnalysisError as e:
+            pending = pending or e
+    _inner_run_c06_c(ctx)
+    if pending is not None:
+        raise pending
